@@ -3,7 +3,7 @@
 A = 'src/memory_managers/array_grid.cc'
 H = 'src/memory_managers/hole_base.h'
 M = 'src/memory.h'
-def job(name, enforce, replace=(), props=('C99',), **kw):
+def job(name, enforce, replace=(), props=('C18', 'C12'), **kw):
     d = dict(name=name, entry='h_' + name, enforce=enforce, replace=list(replace), props=list(props))
     d.update(kw)
     return d
@@ -30,7 +30,10 @@ UNIT = {
         (r'hole_manager<INT>::', '', A),
         (r'memory_manager::', '', A),
         (r'printf\([^;]*;', ';', A), (r'printf\([^;]*;', ';', H),
-        (r'(?<![\w.])Next\(', 'Next_ro(', A),
+        # the successor of grid_current is used through an assumed-shape contract; the links of the huge list are READ from the arena (real accessor) with the list shape
+        # assumed at the point of the read - unless the hole has just been re-filed, which overwrites its links (ghost g_refiled)
+        (r'(?<![\w.])Next\(grid_current\)', 'Next_ro(grid_current)', A),
+        (r'INT next = Next\(curr\);', 'INT next = Next(curr); VERIF_LINK_OF(curr, next);', A),
     ],
     'forwarders': [
         (A, 'array_plus_grid', 'isHole', r'^\{\s*return hole_manager<INT>::isHole\(h\);\s*\}$'),
@@ -47,8 +50,9 @@ UNIT = {
         dict(cls='array_plus_grid', name='clearHole', argc=2, cname='array_plus_grid__clearHole'),
     ],
     'ref_params': {'array_plus_grid__moveCurrentToRow': [2]},
+    'extra_free': {'VERIF_LINK_OF': 'VERIF_LINK_OF'},
     'functions': [
-        hf('isHole'), hf('getHoleSize'),
+        hf('isHole'), hf('getHoleSize'), hf('readSlot'), af('Next'),
         af('requestChunk', where='out', loops=1),
     ],
     'stubs': [
@@ -61,6 +65,6 @@ UNIT = {
     'assumptions': ['INT = int; hole sizes below 2^30'],
     'unverified_surroundings': {'C18': ['array_grid.cc moveCurrentToRow (row search)'], 'C12': ['array_grid.cc moveCurrentToRow (row search)']},
     'jobs': [
-        job('ag_requestChunk', 'array_plus_grid__requestChunk', ST, loops=1, object_bits=12, tier='thorough', timeout=7200),
+        job('ag_requestChunk', 'array_plus_grid__requestChunk', ST, loops=1, object_bits=12),      # ~3 min
     ],
 }
